@@ -4635,12 +4635,23 @@ class WBEMConnection:  # pylint: disable=too-many-instance-attributes
 
         if self._operation_recorders:
             self.operation_recorder_reset()
+            # A CIM method parameter named 'method' that is specified as a
+            # keyword argument would collide with the 'method' argument of
+            # the staging functions, so it is staged as an item of Params
+            # (which is an equivalent way to specify it).
+            stage_Params = Params
+            stage_params = params
+            if 'method' in params:
+                stage_Params = list(Params or []) + \
+                    [('method', params['method'])]
+                stage_params = {k: v for k, v in params.items()
+                                if k != 'method'}
             self.operation_recorder_stage_pywbem_args(
                 method='InvokeMethod',
                 MethodName=MethodName,
                 ObjectName=ObjectName,
-                Params=Params,
-                **params)
+                Params=stage_Params,
+                **stage_params)
 
         stats = self.statistics.start_timer('InvokeMethod')
         try:
